@@ -236,17 +236,27 @@ class Checker:
         rng.shuffle(order)
         leaderless = set(rng.sample(order, rng.randint(0, n))) if rng.random() < 0.8 else set()
         md = prod._metadata
-        before = len(md.partitions_for_topic("topic") or ())
+        before = getattr(self, "_last_n", 0)          # what the previous metadata update listed (the harness's own count)
+        self._last_n = n
         md.update_metadata(types.SimpleNamespace(
             API_VERSION=1, brokers=[(0, "b0", 9092, None), (1, "b1", 9092, None)], controller_id=0,
             topics=[(0, "topic", False, [(0, p, (-1 if p in leaderless else p % 2), [0, 1], [0, 1]) for p in order])]))
         if before and before != n:
             self.count("producer_path_partition_count_changes")
+        if leaderless:
+            self.count("producer_path_updates_with_leaderless_partitions")
         avail = set(order) - leaderless
         wit = {"n": n, "partitions_before_this_metadata_update": before, "metadata_order": order[:50],
                "leaderless": sorted(leaderless)[:50]}
         for key in keys:
-            got = prod._partition("topic", None, key, b"v", key, b"v")
+            try:
+                got = prod._partition("topic", None, key, b"v", key, b"v")
+            except Exception as e:  # noqa: BLE001
+                self.count("producer_path_calls")
+                self.violate(f"producer_partition_raises_{type(e).__name__}",
+                             f"AIOKafkaProducer._partition raised {e!r} for a keyed record: {n} partitions listed, "
+                             f"{len(leaderless)} of them leaderless", dict(wit, key_hex=key.hex()))
+                continue
             self.count("producer_path_calls")
             want = ref.java_partition(key, n)
             if got != want:
@@ -270,7 +280,14 @@ class Checker:
                              f"metadata update) appended to partitions {[tp.partition for tp in self._sent]}, Java client -> {want}",
                              dict(wit, key_hex=key.hex(), via="send"))
         for _ in range(4):
-            got = prod._partition("topic", None, None, b"v", None, b"v")
+            try:
+                got = prod._partition("topic", None, None, b"v", None, b"v")
+            except Exception as e:  # noqa: BLE001
+                self.count("producer_path_calls")
+                self.violate(f"producer_partition_raises_{type(e).__name__}",
+                             f"AIOKafkaProducer._partition raised {e!r} for an unkeyed record: {n} partitions listed, "
+                             f"{len(leaderless)} of them leaderless", dict(wit))
+                continue
             self.count("producer_path_calls")
             self.count("producer_path_unkeyed_calls")
             if avail and got not in avail:
@@ -279,7 +296,13 @@ class Checker:
             elif not avail and got not in set(order):
                 self.violate("producer_unkeyed_not_in_all", f"unkeyed record sent to {got}", dict(wit))
         p = rng.choice(order)
-        if prod._partition("topic", p, b"k", b"v", b"k", b"v") != p:
+        try:
+            same = prod._partition("topic", p, b"k", b"v", b"k", b"v") == p
+        except Exception as e:  # noqa: BLE001
+            same = True
+            self.violate(f"producer_explicit_partition_raises_{type(e).__name__}",
+                         f"explicit partition {p} of {n} listed partitions refused with {e!r}", dict(wit, partition=p))
+        if not same:
             self.violate("producer_explicit_partition_changed", f"explicit partition {p} not honoured", {"n": n, "partition": p})
         self.count("producer_path_calls")
 
